@@ -17,7 +17,7 @@ from pyvc.contracts import FnContract, LoopSpec, Raises
 from pyvc.ops import Unsupported
 from pyvc.state import HeapObj
 from pyvc.symex import Executor
-from pyvc.values import NONE, VBool, VBytes, VExt, VInt, VRef, VSeq, VStr, VTuple, VUnk, ext_sort, fresh_name
+from pyvc.values import NONE, VBool, VBytes, VExt, VFunc, VInt, VRef, VSeq, VStr, VTuple, VUnk, ext_sort, fresh_name
 from pyvc.verify import Maker, p_const
 
 AES = "sharepoint2text/parsing/extractors/pdf/_pypdf_aes_fallback.py"
@@ -104,8 +104,42 @@ def pick(t, terms):
 class C20Executor(Executor):
     """Symbolic byte arrays on the heap (kind 'symarr': (length, Array)), the round-key cache object."""
 
+    # ---- an over-approximated raise (EXC-ANY: attribute / call on a value the engine has no model for) is not a fact about the
+    #      code: the path is tagged like the engine's own havoc_call paths, a VC refuted on it is `unknown` (verify.discharge)
+    def exc_any(self, st, site, also=()):
+        if not self.abstract:
+            st.assume(z3.Bool(f"__havoc__@{site}"[:120]))
+        return super().exc_any(st, site, also)
+
+    # ---- PY-LOG by data flow: a logging call is a call of a logging method on a logger object, whatever the logger is called
+    #      (module-level `X = logging.getLogger(..)`, `logging.getLogger(..).debug(..)`); loggers are modelled (ASSUMED: no effect)
+    def is_logger_call(self, e):
+        import ast as _ast
+        if super().is_logger_call(e):
+            return True
+        if not (isinstance(e, _ast.Call) and isinstance(e.func, _ast.Attribute)
+                and e.func.attr in ("debug", "info", "warning", "warn", "error", "exception", "critical", "log")):
+            return False
+        recv = e.func.value
+        return self._is_logger_expr(recv)
+
+    def _is_logger_expr(self, recv):
+        import ast as _ast
+        from pyvc.flow import dotted
+        if isinstance(recv, _ast.Call):
+            d = dotted(recv.func)
+            full = self.module.imports.get(d.split(".")[0], d.split(".")[0]) + ("." + ".".join(d.split(".")[1:]) if "." in d else "")
+            return full in ("logging.getLogger", "logging.getLogger.getChild") or d.endswith("getLogger")
+        if isinstance(recv, _ast.Name) and recv.id in self.module.assigns:
+            return self._is_logger_expr(self.module.assigns[recv.id])
+        return False
+
     # ---- construction / conversion
     def b_collection(self, st, name, args, node):
+        if name == "bytearray" and (not args or (isinstance(args[0], VBytes) and not args[0].items)):
+            # an empty buffer that the function grows (`out += block`, `out.extend(block)`): symbolic array of length 0
+            ref = st.alloc(HeapObj("symarr", (z3.IntVal(0), z3.K(I, z3.BitVecVal(0, 8)))), self.refs)
+            return [(st, VRef(ref))]
         if name == "bytearray" and args and isinstance(args[0], VInt) and args[0].const() is None:
             n = ops.int_term(args[0])
             st2 = self.fork_raise(st, n < 0, "ValueError")
@@ -113,6 +147,23 @@ class C20Executor(Executor):
                 return []
             ref = st2.alloc(HeapObj("symarr", (n, z3.K(I, z3.BitVecVal(0, 8)))), self.refs)
             return [(st2, VRef(ref))]
+        if name in ("bytes", "bytearray") and len(args) == 1 and isinstance(args[0], VSeq) and not self._is_symb(args[0]) \
+                and self.concrete_items(st, args[0]) is None:
+            # bytes(<sequence of ints of symbolic length>), e.g. bytes([p] * p): element j is a byte (obligation: 0 <= int < 256)
+            seq = args[0]
+            j = z3.Int(fresh_name("j!bytes"))
+            e = seq.elem(j)
+            if isinstance(e, VInt):
+                if not e.is_bv:
+                    rng = z3.ForAll([j], z3.Implies(z3.And(j >= 0, j < seq.length), z3.And(e.t >= 0, e.t < 256)))
+                    st2 = self.fork_raise(st, z3.Not(rng), "ValueError")
+                    if st2 is None:
+                        return []
+                    st = st2
+                v = symbytes(seq.length, z3.Lambda([j], byte_t(e)))
+                if name == "bytearray":
+                    return [(st, VRef(st.alloc(HeapObj("symarr", (seq.length, v.tag[2])), self.refs)))]
+                return [(st, v)]
         if name in ("bytes", "memoryview") and args and isinstance(args[0], VRef) and st.obj(args[0].ref).kind == "symarr":
             n, a = st.obj(args[0].ref).data
             return [(st, symbytes(n, a))]
@@ -198,7 +249,7 @@ class C20Executor(Executor):
                 return i
         return 0
 
-    def get_index(self, st, base, idx, node):
+    def _get_index_sym(self, st, base, idx, node):
         if isinstance(base, VRef) and st.obj(base.ref).kind == "symarr" and isinstance(idx, VInt):
             n, a = st.obj(base.ref).data
             it = ops.int_term(idx)
@@ -208,24 +259,197 @@ class C20Executor(Executor):
             return [(st2, VInt(z3.Select(a, z3.If(it < 0, it + n, it))))]
         return super().get_index(st, base, idx, node)
 
+    # ---- `while` loops under a per-iteration invariant: same proof scheme as the engine's symbolic `for`, with a GHOST iteration
+    #      index (0 at entry, +1 per iteration, arbitrary >= 0 at the loop head and at exit).  Partial correctness only: nothing
+    #      is claimed about termination of a `while` loop.
+    def s_While(self, s, st):
+        from pyvc.symex import LoopCtx, Outcome
+        spec = self.loop_spec(s)
+        if spec is None or spec.inv is None or spec.inv_point is None or spec.unroll is not None:
+            return super().s_While(s, st)
+        inv, invp = spec.inv, spec.inv_point
+        label = spec.label or f"L{s.lineno}"
+        entry = st.fork()
+        outs = []
+        zero = z3.IntVal(0)
+        self.add_vc("inv-init", label, st.pc, inv(LoopCtx(self, st, zero, entry, None, {"phase": "init"})), loc=self.loc(s))
+        j0 = z3.Int(fresh_name("j0"))
+        self.add_vc("inv-init", label + ".pointwise", st.pc, invp(LoopCtx(self, st, zero, entry, None), j0), loc=self.loc(s))
+        body_st = st.fork()
+        self.havoc_loop_state(body_st, s.body, spec)
+        i = z3.Int(fresh_name("i!while"))
+        after = body_st.fork()
+        body_st.assume(i >= 0)
+        body_st.assume(self._b(inv(LoopCtx(self, body_st, i, entry, None, {"phase": "assume"}))))
+        head_st = body_st.fork()
+        jq = z3.Int(fresh_name("jq"))
+        q_hyp = z3.ForAll([jq], self._b(invp(LoopCtx(self, head_st, i, entry, None), jq)))
+        body_st.assume(q_hyp)
+        for (s2, g) in self.ev(s.test, body_st):
+            for (s3, b) in self.fork_truth(s2, g):
+                if not b:
+                    continue
+                for o in self.exec_block(s.body, s3):
+                    if o.kind in ("fall", "continue"):
+                        self.add_vc("inv-preserve", label, o.st.pc, inv(LoopCtx(self, o.st, i + 1, entry, None, {"phase": "preserve"})), loc=self.loc(s))
+                        j1 = z3.Int(fresh_name("j0"))
+                        hyps = [self._b(invp(LoopCtx(self, head_st, i, entry, None), j1 + d)) for d in spec.inst_offsets]
+                        self.add_vc("inv-preserve", label + ".pointwise", [p_ for p_ in o.st.pc if p_ is not q_hyp] + hyps,
+                                    invp(LoopCtx(self, o.st, i + 1, entry, None), j1), loc=self.loc(s))
+                    elif o.kind == "break":
+                        outs.append(Outcome("fall", o.st))
+                    else:
+                        outs.append(o)
+        nx = z3.Int(fresh_name("n!while"))
+        after.assume(nx >= 0)
+        after.assume(self._b(inv(LoopCtx(self, after, nx, entry, None, {"phase": "exit"}))))
+        jq2 = z3.Int(fresh_name("jq"))
+        after.assume(z3.ForAll([jq2], self._b(invp(LoopCtx(self, after, nx, entry, None), jq2))))
+        for (s2, g) in self.ev(s.test, after):
+            for (s3, b) in self.fork_truth(s2, g):
+                if b:
+                    continue
+                if s.orelse:
+                    outs.extend(self.exec_block(s.orelse, s3))
+                else:
+                    outs.append(Outcome("fall", s3))
+        return outs
+
     # ---- havoc of symbolic arrays in loops
     def havoc_loop_state(self, st, body, spec, extra_names=()):
-        sym = {r: st.heap[r] for r in self.mutated_refs(body, st) if st.heap.get(r) is not None and st.heap[r].kind == "symarr"}
+        import ast as _ast
+        refs = set(self.mutated_refs(body, st))
+        for n_ in [x for b_ in body for x in _ast.walk(b_)]:
+            if isinstance(n_, _ast.AugAssign) and isinstance(n_.target, _ast.Name) and isinstance(st.lookup(n_.target.id), VRef):
+                refs.add(st.lookup(n_.target.id).ref)
+        sym = {r: st.heap[r] for r in refs if st.heap.get(r) is not None and st.heap[r].kind == "symarr"}
+        carried = []
+        if spec is not None and getattr(spec, "rebind", None) == "carried-16-byte-blocks":
+            # a bytes-like local bound before the loop and re-assigned in it (the CBC chaining block): after the havoc it is an
+            # arbitrary 16-byte block -- that its length IS 16 in every iteration is part of the loop invariant (proved)
+            for name in sorted(self.assigned_names(body)):
+                cur = st.lookup(name)
+                if cur is not None and (isinstance(cur, VBytes) or self._is_symb(cur)):
+                    carried.append(name)
         super().havoc_loop_state(st, body, spec, extra_names)
         for r, o in sym.items():
-            st.heap[r] = HeapObj("symarr", (o.data[0], z3.Array(fresh_name("out"), I, BV8)))
-        if spec is not None and getattr(spec, "rebind", None):
+            # content AND length are arbitrary after the havoc (a buffer may grow); the loop invariant says what the length is
+            ln = z3.Int(fresh_name("out_len"))
+            st.assume(ln >= 0)
+            st.heap[r] = HeapObj("symarr", (ln, z3.Array(fresh_name("out"), I, BV8)))
+        for name in carried:
+            st.bind(name, VBytes([VInt(z3.BitVec(fresh_name(f"{name}_{t}"), 8)) for t in range(16)]))
+        if spec is not None and isinstance(getattr(spec, "rebind", None), dict):
             for name, fn in spec.rebind.items():
                 st.bind(name, fn(self, st))
 
     # ---- sequences of symbolic length: concatenation, repetition, comparison, slicing keeps the array view
+    # ---- int.from_bytes / int.to_bytes on byte strings of concrete length (wide XOR of blocks): exact bit-vector encoding
+    def call(self, st, f, args, kwargs, node):
+        if isinstance(f, VFunc) and f.how == "classattr" and f.a == "int" and f.b == "from_bytes" and args:
+            items = self.concrete_items(st, args[0])
+            order = args[1] if len(args) > 1 else kwargs.get("byteorder", VStr("big"))
+            oc = order.const() if isinstance(order, VStr) else None
+            signed = kwargs.get("signed")
+            if items is not None and oc in ("big", "little") and (signed is None or (isinstance(signed, VBool) and signed.const() is False)) \
+                    and all(isinstance(x, VInt) for x in items):
+                bs = [byte_t(x) for x in items]
+                if not bs:
+                    return [(st, VInt(0))]
+                if oc == "little":
+                    bs = bs[::-1]
+                return [(st, VInt(z3.Concat(*bs) if len(bs) > 1 else bs[0]))]
+        return super().call(st, f, args, kwargs, node)
+
+    def _int_to_bytes(self, st, v, args, kwargs, node):
+        ln = args[0] if args else kwargs.get("length", VInt(1))
+        order = args[1] if len(args) > 1 else kwargs.get("byteorder", VStr("big"))
+        n = ln.const() if isinstance(ln, VInt) else None
+        oc = order.const() if isinstance(order, VStr) else None
+        signed = kwargs.get("signed")
+        if n is None or not 0 <= n <= 4096 or oc not in ("big", "little") or not (signed is None or (isinstance(signed, VBool) and signed.const() is False)):
+            return None
+        t = v.t
+        if not z3.is_bv(t):
+            st2 = self.fork_raise(st, z3.Or(t < 0, t >= 2 ** (8 * n)), "OverflowError")
+            if st2 is None:
+                return []
+            st, t = st2, z3.Int2BV(t, max(8 * n, 1))
+        w = t.size()
+        if w > 8 * n:
+            st2 = self.fork_raise(st, z3.Extract(w - 1, 8 * n, t) != 0, "OverflowError") if n > 0 else self.fork_raise(st, t != 0, "OverflowError")
+            if st2 is None:
+                return []
+            st = st2
+            t = z3.Extract(8 * n - 1, 0, t) if n > 0 else t
+        elif w < 8 * n:
+            t = z3.ZeroExt(8 * n - w, t)
+        bs = [VInt(z3.simplify(z3.Extract(8 * (n - 1 - i) + 7, 8 * (n - 1 - i), t))) for i in range(n)]
+        if oc == "little":
+            bs = bs[::-1]
+        return [(st, VBytes(bs))]
+
+    def _grow(self, st, ref, items):
+        n, a = st.obj(ref).data
+        for t, x in enumerate(items):
+            a = z3.Store(a, n + t, byte_t(x))
+        st.heap[ref] = HeapObj("symarr", (z3.simplify(n + len(items)), a))
+
+    def call_method(self, st, obj, name, args, kwargs, node):
+        if isinstance(obj, VInt) and name == "to_bytes":
+            r = self._int_to_bytes(st, obj, args, kwargs, node)
+            if r is not None:
+                return r
+        if isinstance(obj, VRef) and st.heap.get(obj.ref) is not None and st.obj(obj.ref).kind == "symarr":
+            if name == "extend" and len(args) == 1:
+                items = self.concrete_items(st, args[0])
+                if items is None:
+                    raise Unsupported(f"{self.loc(node)} extend of a symbolic buffer by a value of symbolic length")
+                self._grow(st, obj.ref, items)
+                return [(st, NONE)]
+            if name == "append" and len(args) == 1 and isinstance(args[0], VInt):
+                self._grow(st, obj.ref, [args[0]])
+                return [(st, NONE)]
+            raise Unsupported(f"{self.loc(node)} method {name} on a symbolic byte buffer")
+        return super().call_method(st, obj, name, args, kwargs, node)
+
+    def assign(self, tgt, v, st):
+        import ast as _ast
+        if isinstance(tgt, (_ast.Tuple, _ast.List)) and sum(isinstance(e, _ast.Starred) for e in tgt.elts) == 1:
+            # first, *middle, last = <sequence of concrete length>
+            items = self.concrete_items(st, v)
+            k = next(i for i, e in enumerate(tgt.elts) if isinstance(e, _ast.Starred))
+            after = len(tgt.elts) - k - 1
+            if items is not None and len(items) >= len(tgt.elts) - 1:
+                parts = items[:k] + [self.new_list(st, items[k:len(items) - after])] + items[len(items) - after:]
+                states = [st]
+                for e, x in zip(tgt.elts, parts):
+                    states = [s2 for s1 in states for s2 in self.assign(e.value if isinstance(e, _ast.Starred) else e, x, s1)]
+                return states
+        return super().assign(tgt, v, st)
+
     def binop(self, st, op, a, b, node, inplace=False):
+        if op == "Add" and not inplace and isinstance(a, VRef) and isinstance(b, VRef) \
+                and st.obj(a.ref).kind == "list" and st.obj(b.ref).kind == "list" \
+                and st.obj(a.ref).data is not None and st.obj(b.ref).data is not None:
+            return [(st, self.new_list(st, list(st.obj(a.ref).data) + list(st.obj(b.ref).data)))]
+        if op == "Add" and inplace and isinstance(a, VRef) and st.heap.get(a.ref) is not None and st.obj(a.ref).kind == "symarr":
+            items = self.concrete_items(st, b)
+            if items is None:
+                raise Unsupported(f"{self.loc(node)} += of a symbolic buffer by a value of symbolic length")
+            self._grow(st, a.ref, items)
+            return [(st, None)]
         if op == "Add" and (self._is_symb(a) or self._is_symb(b)) and self._bytes_like(a) and self._bytes_like(b):
             na, aa = arr_of(a)
             nb, ab = arr_of(b)
             k = z3.Int("k!cat")
             r = z3.Lambda([k], z3.If(k < na, z3.Select(aa, k), z3.Select(ab, k - na)))
             return [(st, symbytes(na + nb, r))]
+        if op == "Mult" and isinstance(b, VInt) and b.const() is None and isinstance(a, (VRef, VTuple)) and not inplace:
+            items = self.concrete_items(st, a)
+            if items is not None and len(items) == 1 and isinstance(items[0], VInt):
+                n = ops.int_term(b)          # [x] * n : n copies of x (no copy for n <= 0)
+                return [(st, VSeq(z3.If(n < 0, z3.IntVal(0), n), lambda _j, x=items[0]: x, "int"))]
         if op == "Mult" and isinstance(a, VBytes) and len(a.items) == 1 and isinstance(b, VInt) and b.const() is None:
             n = ops.int_term(b)
             return [(st, symbytes(z3.If(n < 0, z3.IntVal(0), n), z3.K(I, byte_t(a.items[0]))))]
@@ -265,10 +489,305 @@ class C20Executor(Executor):
             return [(st, VBool(eq if op == "Eq" else z3.Not(eq)))]
         return super().compare(st, op, a, b, node)
 
+    # ---- the round-key cache read with `in` / `[]` instead of `.get` (same ASSUMED class invariant as the `.get` model: a
+    #      cached value is the key expansion of its key and only valid key lengths are cached; established by the
+    #      cache-invariant obligation at every store)
+    def _cache_hit(self, st, key):
+        try:
+            n, a = arr_of(key)
+        except Unsupported:
+            return VExt("RoundKeys")
+        st.assume(z3.Or(n == 16, n == 24, n == 32))
+        return VExt("RoundKeys", KEXP(n, a))
+
+    def contains(self, st, container, item, node):
+        if isinstance(container, VExt) and container.sort == "RKCache":
+            h = z3.Bool(fresh_name("cached"))
+            try:
+                n, a = arr_of(item)
+                st.ghost["rk-membership"] = st.ghost.get("rk-membership", ()) + ((n, a, h),)
+            except Unsupported:
+                pass
+            return [(st, VBool(h))]
+        return super().contains(st, container, item, node)
+
+    def get_index(self, st, base, idx, node):
+        if isinstance(base, VExt) and base.sort == "RKCache":
+            known = False
+            try:
+                n, a = arr_of(idx)
+                for (n0, a0, h) in st.ghost.get("rk-membership", ()):
+                    if n0.eq(n) and a0.eq(a) and not self.feasible(st.pc, z3.Not(h)):
+                        known = True
+            except Unsupported:
+                pass
+            if not known:
+                miss = st.fork()
+                self.raise_in(miss, self.mk_exc("KeyError"))
+            return [(st, self._cache_hit(st, idx))]
+        return self._get_index_sym(st, base, idx, node)
+
+    # ---- comprehension == loop: a comprehension / generator expression with one `for` over a sequence of SYMBOLIC length is
+    #      the sequence of its elements: element j is the element expression evaluated with the target bound to item j.  The
+    #      expression is evaluated ONCE for a fresh index k (0 <= k < len); VCs it emits hold for every k; facts it assumes
+    #      (callee postconditions) are kept universally quantified over k; it must be pure (no heap effect, no fork).
+    def _subst(self, v, k, j):
+        sub = lambda t: z3.substitute(t, (k, j))
+        if isinstance(v, VInt):
+            return VInt(sub(v.t))
+        if isinstance(v, VBool):
+            return VBool(sub(v.t))
+        if isinstance(v, VBytes):
+            return VBytes([self._subst(x, k, j) for x in v.items])
+        if isinstance(v, VTuple):
+            return VTuple([self._subst(x, k, j) for x in v.items])
+        if self._is_symb(v):
+            return symbytes(sub(v.tag[1]), sub(v.tag[2]))
+        if isinstance(v, VExt) and v.t is not None:
+            return VExt(v.sort, sub(v.t))
+        raise Unsupported(f"comprehension element of kind {type(v).__name__} over a symbolic sequence")
+
+    def _sym_comp(self, n, st):
+        import ast as _ast
+        if len(n.generators) != 1 or n.generators[0].ifs or n.generators[0].is_async:
+            return None
+        g = n.generators[0]
+        its = self.ev(g.iter, st)
+        if len(its) != 1:
+            return None
+        s1, it = its[0]
+        if self.concrete_items(s1, it) is not None or not isinstance(it, VSeq):
+            return ("plain", s1, it)
+        k = z3.Int(fresh_name("k!comp"))
+        rng = z3.And(k >= 0, k < it.length)
+        s2 = s1.fork()
+        s2.assume(rng)
+        base_pc = len(s2.pc)
+        bound = self.assign(g.target, it.elem(k), s2)
+        if len(bound) != 1:
+            raise Unsupported(f"{self.loc(n)} comprehension target forks")
+        outs = self.ev(n.elt, bound[0])
+        if len(outs) != 1:
+            raise Unsupported(f"{self.loc(n)} comprehension element forks over a symbolic sequence")
+        s3, v = outs[0]
+        if any(s3.heap.get(r) is not o for r, o in s1.heap.items()) or len(s3.heap) != len(s1.heap):
+            raise Unsupported(f"{self.loc(n)} comprehension element with a heap effect over a symbolic sequence")
+        facts = s3.pc[base_pc:]
+        if facts:
+            s1.assume(z3.ForAll([k], z3.Implies(rng, z3.And(facts))))
+        self._subst(v, k, k)      # kind check now (raises Unsupported)
+        return ("sym", s1, VSeq(it.length, lambda j, v=v, k=k: self._subst(v, k, j), "comp"))
+
+    def e_GeneratorExp(self, n, st):
+        r = self._sym_comp(n, st)
+        if r is not None and r[0] == "sym":
+            return [(r[1], r[2])]
+        return super().e_GeneratorExp(n, st)
+
+    def e_ListComp(self, n, st):
+        r = self._sym_comp(n, st)
+        if r is not None and r[0] == "sym":
+            return [(r[1], r[2])]
+        return super().e_ListComp(n, st)
+
+    def b_sum(self, st, args, kwargs, node):
+        items = self.concrete_items(st, args[0])
+        start = args[1] if len(args) > 1 else kwargs.get("start")
+        if items is not None and isinstance(start, VRef) and st.obj(start.ref).kind == "list" and st.obj(start.ref).data is not None:
+            acc = list(st.obj(start.ref).data)          # sum(<lists>, []) flattens
+            for x in items:
+                sub = self.concrete_items(st, x)
+                if sub is None or not isinstance(x, VRef):
+                    return super().b_sum(st, args, kwargs, node)
+                acc += sub
+            return [(st, self.new_list(st, acc))]
+        return super().b_sum(st, args, kwargs, node)
+
+    def b_all(self, st, args, kwargs, node):
+        v = args[0]
+        if isinstance(v, VSeq) and self.concrete_items(st, v) is None:
+            j = z3.Int(fresh_name("j!all"))
+            return [(st, VBool(z3.ForAll([j], z3.Implies(z3.And(j >= 0, j < v.length), self.truth(st, v.elem(j)).t))))]
+        return super().b_all(st, args, kwargs, node)
+
+    def b_any(self, st, args, kwargs, node):
+        v = args[0]
+        if isinstance(v, VSeq) and self.concrete_items(st, v) is None:
+            j = z3.Int(fresh_name("j!any"))
+            return [(st, VBool(z3.Exists([j], z3.And(j >= 0, j < v.length, self.truth(st, v.elem(j)).t))))]
+        return super().b_any(st, args, kwargs, node)
+
+    def _join_blocks(self, st, seq, node):
+        """b"".join(<sequence of symbolic length whose elements are byte strings of one constant length L>)"""
+        probe = seq.elem(z3.Int(fresh_name("j!probe")))
+        if not isinstance(probe, VBytes) or not probe.items:
+            raise Unsupported(f"{self.loc(node)} join of a symbolic sequence whose elements are not fixed-length byte strings")
+        L = len(probe.items)
+        x = z3.Int(fresh_name("x!join"))
+        items = seq.elem(x / L).items
+        body = byte_t(items[L - 1])
+        for t in range(L - 2, -1, -1):
+            body = z3.If(x % L == t, byte_t(items[t]), body)
+        return symbytes(z3.simplify(L * seq.length), z3.Lambda([x], body))
+
+    def bytes_method(self, st, obj, name, args, kwargs, node):
+        if name == "join" and isinstance(obj, VBytes) and not obj.items and len(args) == 1 and isinstance(args[0], VSeq) \
+                and self.concrete_items(st, args[0]) is None:
+            return [(st, self._join_blocks(st, args[0], node))]
+        if name == "join" and isinstance(obj, VBytes) and not obj.items and len(args) == 1:
+            parts = self.concrete_items(st, args[0])
+            if parts is not None and parts and all(self._bytes_like(x) for x in parts) and any(self._is_symb(x) for x in parts):
+                acc = [(st, parts[0])]
+                for x in parts[1:]:
+                    acc = [(s2, r) for (s1, cur) in acc for (s2, r) in self.binop(s1, "Add", cur, x, node)]
+                return acc
+        return super().bytes_method(st, obj, name, args, kwargs, node)
+
     def truth(self, st, v):
         if isinstance(v, VExt) and v.sort == "RoundKeys":
             return VBool(True)
         return super().truth(st, v)
+
+
+# ------------------------------------------------------- the installation site --
+PYPDF_FALLBACK, PYPDF_PROVIDERS, PYPDF_ENCRYPTION = "pypdf._crypt_providers._fallback", "pypdf._crypt_providers", "pypdf._encryption"
+PYPDF_MODULES = (PYPDF_FALLBACK, PYPDF_PROVIDERS, PYPDF_ENCRYPTION)
+DRIVERS = ("aes_ecb_encrypt", "aes_ecb_decrypt", "aes_cbc_encrypt", "aes_cbc_decrypt")
+
+
+class InstallExecutor(C20Executor):
+    """Runs the REAL `patch_pypdf_fallback_aes` on an abstract model of the three pypdf modules it patches (ASSUMED: on the
+    fallback provider `CryptAES` is one class object shared by the three modules, the four aes_* names are stubs that raise
+    DependencyError, `crypt_provider` is a pair of strings).  Modules and the class are heap objects, so that what the code
+    stores -- directly, through setattr, through helpers or loops -- is read off the final heap."""
+
+    def module_obj(self, st, name):
+        mods = st.ghost.get("pypdf-modules", {})
+        if name not in mods:
+            data = {}
+            if name in PYPDF_MODULES:
+                cls = self.class_obj(st)
+                data = {"CryptAES": cls}
+                data.update({d: VFunc("ext", f"pypdf-stub-raising-DependencyError.{d}") for d in DRIVERS})
+            if name == PYPDF_PROVIDERS:
+                data["crypt_provider"] = VTuple([VStr(z3.String("crypt_provider!name")), VStr(z3.String("crypt_provider!version"))])
+            ref = st.alloc(HeapObj("obj", data, f"module:{name}", fresh=False), self.refs)
+            st.ghost["pypdf-modules"] = dict(st.ghost.get("pypdf-modules", {}), **{name: ref})
+        return VRef(st.ghost["pypdf-modules"][name])
+
+    def class_obj(self, st):
+        if "pypdf-CryptAES" not in st.ghost:
+            st.ghost["pypdf-CryptAES"] = st.alloc(HeapObj("obj", {}, "class:CryptAES", fresh=False), self.refs)
+        return VRef(st.ghost["pypdf-CryptAES"])
+
+    def s_Import(self, s, st):
+        from pyvc.symex import Outcome
+        for a in s.names:
+            if a.name.split(".")[0] != "pypdf":
+                return super().s_Import(s, st)
+            st.bind(a.asname or "pypdf", self.module_obj(st, a.name if a.asname else "pypdf"))
+        return [Outcome("fall", st)]
+
+    def s_ImportFrom(self, s, st):
+        from pyvc.symex import Outcome
+        if (s.module or "").split(".")[0] != "pypdf" or s.level:
+            return super().s_ImportFrom(s, st)
+        for a in s.names:
+            full = f"{s.module}.{a.name}"
+            if any(m == full or m.startswith(full + ".") for m in PYPDF_MODULES):
+                st.bind(a.asname or a.name, self.module_obj(st, full))
+            else:
+                for (_s2, v) in self.get_attr(st, self.module_obj(st, s.module), a.name, s):
+                    st.bind(a.asname or a.name, v)
+        return [Outcome("fall", st)]
+
+    def get_attr(self, st, base, attr, node):
+        if isinstance(base, VFunc) and attr in ("__name__", "__qualname__") and base.how in ("repo", "closure"):
+            return [(st, VStr(base.b.split(".")[-1] if base.how == "repo" else base.a.name))]
+        if isinstance(base, VRef) and st.obj(base.ref).kind == "obj" and (st.obj(base.ref).cls or "").startswith("module:"):
+            o = st.obj(base.ref)
+            if attr in o.data:
+                return [(st, o.data[attr])]
+            name = o.cls[len("module:"):] + "." + attr
+            if any(m == name or m.startswith(name + ".") for m in PYPDF_MODULES):
+                return [(st, self.module_obj(st, name))]
+            return [(st, VUnk(f"{name}"))]
+        return super().get_attr(st, base, attr, node)
+
+
+def run_install_site(repo):
+    """-> {"error": str} | {"outcomes": [(state, returned V)], "ex": executor, "fnode": ...}   (cached per tree)"""
+    from pyvc import loader
+    from pyvc.contracts import Registry
+    from pyvc.exctypes import Universe
+    from pyvc.state import Frame, State
+    key = repo or loader.REPO
+    if key in _INSTALL_CACHE:
+        return _INSTALL_CACHE[key]
+    res = {}
+    try:
+        m = loader.module(AES, repo)
+        fnode = m.functions.get("patch_pypdf_fallback_aes")
+        if fnode is None:
+            raise Unsupported("patch_pypdf_fallback_aes not found")
+        reg = Registry()
+
+        def m_import_module(ex_, st_, args, kwargs, node):
+            if args and isinstance(args[0], VStr) and args[0].const() is not None and args[0].const().split(".")[0] == "pypdf" and len(args) == 1:
+                return [(st_, ex_.module_obj(st_, args[0].const()))]
+            raise Unsupported(f"{ex_.loc(node)} import_module of a computed / foreign name")
+        reg.ext_models["importlib.import_module"] = m_import_module
+        ex = InstallExecutor(m, reg, Universe(key))
+        st = State()
+        st.frames = [Frame({}, None, fnode)]
+        ex.cur_fn_stack.append(fnode)
+        ex.sinks.append([])
+        try:
+            outs = ex.exec_block(fnode.body, st)
+        finally:
+            raised = ex.sinks.pop()
+            ex.cur_fn_stack.pop()
+        if ex.exc_any_sites:
+            raise Unsupported("the installation function calls code without a model: " + "; ".join(sorted(ex.exc_any_sites))[:200])
+        res = {"ex": ex, "fnode": fnode, "module": m, "raised": raised,
+               "outcomes": [(o.st, o.val if o.kind == "return" else NONE) for o in outs if o.kind in ("return", "fall")]}
+    except Unsupported as e:
+        res = {"error": str(e)}
+    except Exception as e:  # noqa -- a shape the model does not cover is not an engine error: undecided, native replay decides
+        res = {"error": f"{type(e).__name__}: {e}"}
+    _INSTALL_CACHE[key] = res
+    return res
+
+
+_INSTALL_CACHE = {}
+
+
+def installed_methods(repo):
+    """{"__init__" | "encrypt" | "decrypt": qualname} of the functions the real installation code binds on CryptAES (data flow of
+    the executed function, not names); {} when the site is not understood"""
+    r = run_install_site(repo)
+    found = {}
+    for (st, val) in r.get("outcomes", []):
+        if not (isinstance(val, VBool) and z3.is_true(z3.simplify(val.t))):
+            continue
+        if "pypdf-CryptAES" not in st.ghost:
+            continue
+        data = st.obj(st.ghost["pypdf-CryptAES"]).data
+        for role in ("__init__", "encrypt", "decrypt"):
+            q = func_qualname(r, data.get(role))
+            if q is not None:
+                found.setdefault(role, set()).add(q)
+    return {k: next(iter(v)) for k, v in found.items() if len(v) == 1}
+
+
+def func_qualname(r, v):
+    if isinstance(v, VFunc) and v.how == "repo" and v.a == AES:
+        return v.b
+    if isinstance(v, VFunc) and v.how == "closure":
+        for q, node in r["module"].functions.items():
+            if node is v.a:
+                return q
+    return None
 
 
 # ------------------------------------------------------------- spec relations --
